@@ -195,6 +195,7 @@ func runC05(c *Ctx) {
 		const bAdded uint = 0
 		nAdd, nExt := 0, 0
 		var addArg, extArg ssa.Value
+		addArgs, extArgs := map[ssa.Value]bool{}, map[ssa.Value]bool{}
 		r := &esp.Rule{Name: "C05.R2"}
 		r.Relevant = func(g *ssa.Function) bool { return composite[g] }
 		r.Flag = func(v ssa.Value) (int, bool) {
@@ -224,10 +225,12 @@ func runC05(c *Ctx) {
 				if k == "add" {
 					nAdd++
 					addArg = call.Common().Args[1]
+					addArgs[addArg] = true
 					return []esp.Ev{{ID: 0, Name: "page-add record", ErrIdx: -1, BoolIdx: -1}}
 				}
 				nExt++
 				extArg = call.Common().Args[1]
+				extArgs[extArg] = true
 				return []esp.Ev{{ID: 1, Name: "extension record", ErrIdx: -1, BoolIdx: -1}}
 			}
 			return nil
@@ -256,15 +259,76 @@ func runC05(c *Ctx) {
 		}
 		// same address expression, add dominates extend in the loop body
 		if addArg != nil && extArg != nil {
-			same := addArg == extArg
-			if !same {
+			sameAddr := func(addArg, extArg ssa.Value) bool {
+				if addArg == extArg {
+					return true
+				}
 				a, aok := addArg.(*ssa.BinOp)
 				b, bok := extArg.(*ssa.BinOp)
-				same = aok && bok && a.Op == b.Op && a.X == b.X && a.Y == b.Y
-				// the chunk addresses of a page: the page's address plus the offset of the chunk within it
-				if !same && bok && b.Op == token.ADD && (b.X == addArg || b.Y == addArg) {
-					same = true
+				if aok && bok && a.Op == b.Op && a.X == b.X && a.Y == b.Y {
+					return true
 				}
+				// the chunk addresses of a page: the page's address plus the offset of the chunk within it
+				if bok && b.Op == token.ADD && (b.X == addArg || b.Y == addArg) {
+					return true
+				}
+				// base + page for the page, base + offset for its chunks, where the chunk counter starts at the page's offset
+				if aok && bok && a.Op == token.ADD && b.Op == token.ADD {
+					for _, pr := range [][4]ssa.Value{{a.X, a.Y, b.X, b.Y}, {a.X, a.Y, b.Y, b.X}, {a.Y, a.X, b.X, b.Y}, {a.Y, a.X, b.Y, b.X}} {
+						if pr[0] != pr[2] {
+							continue
+						}
+						if ph, ok := pr[3].(*ssa.Phi); ok {
+							for _, e := range ph.Edges {
+								if e == pr[1] {
+									return true
+								}
+							}
+						}
+					}
+				}
+				return false
+			}
+			// every extension record is addressed like (one of) the page-add records
+			same := true
+			matchesAdd := func(ea ssa.Value) bool {
+				for aa := range addArgs {
+					if sameAddr(aa, ea) {
+						return true
+					}
+				}
+				return false
+			}
+			for ea := range extArgs {
+				found := matchesAdd(ea)
+				// a helper extending one page chunk by chunk is handed the page's address: parameter + offset, where
+				// every caller passes the address it gave to the page-add record
+				if b, ok := ea.(*ssa.BinOp); ok && !found && b.Op == token.ADD {
+					for _, op := range []ssa.Value{b.X, b.Y} {
+						prm, ok := op.(*ssa.Parameter)
+						if !ok {
+							continue
+						}
+						idx := -1
+						for i, q := range prm.Parent().Params {
+							if q == prm {
+								idx = i
+							}
+						}
+						node := c.P.CallGraph().Nodes[prm.Parent()]
+						if idx < 0 || node == nil || len(node.In) == 0 {
+							continue
+						}
+						all := true
+						for _, e := range node.In {
+							if e.Site == nil || e.Site.Common().StaticCallee() != prm.Parent() || idx >= len(e.Site.Common().Args) || !matchesAdd(e.Site.Common().Args[idx]) {
+								all = false
+							}
+						}
+						found = found || all
+					}
+				}
+				same = same && found
 			}
 			c.S.Check(same, "R2", name+":record address", c.pos(initRegion.Pos()), "page-add and extension records carry the same address expression", "page-add and extension records are given different addresses")
 		}
